@@ -53,7 +53,7 @@ meta("C05",
 meta("C08",
      rule="G3 histories in which ~55% of the steps are calls the text model / grammar marks as failing (duplicate or clashing identifiers for every pair of record types, renames to identifiers in use, version conflicts, malformed lines, conflicting header values, edits of reference fields of connected lines, rm of unknown ids) interleaved with successful steps; full public observation compared before/after each raising call; non-trivial = history with >=1 raising call on a non-empty Gfa Probe steps: calls for which the text model has no verdict (identifiers mentioned in roles their carriers cannot play, lines taking the place of placeholders) are executed and, when they raise, must leave the observation unchanged; unknown-version scenarios include TS conflicts on VN headers.",
      budget={"quick": 25, "thorough": 400},
-     min_counts={"quick": {"failing_calls": 1500}},
+     min_counts={"quick": {"probe_calls_failed": 400, "failing_calls": 1500}},
      set_samples=["failure_classes"])
 meta("C09",
      rule="G3 histories with ~45% identifier clashes (additions and renames of every identified record type to identifiers in use by the same or another type) and legal renames; unique_names walker after every outermost mutation; model comparison after renames; non-trivial = history with a cross-type clash or a rename After every successful step a lookup oracle compares names/line()/segment() with the model (each identifier listed once and found as the real line that writes the model's record; freed identifiers not found), placeholders must exist exactly for mentioned-undefined identifiers, and line objects obtained earlier which claim to be connected must be the registered ones; L/C identifier tags are set, renamed and deleted; renames onto placeholders and to '*'.",
@@ -72,7 +72,7 @@ meta("C04",
 meta("C07",
      rule="G4 hostile text (empty/blank lines, every record letter with 0..10 fields from a pool of boundary atoms, printable/non-printable/non-ASCII garbage, very long fields, deep JSON) and single-point mutants of generated valid lines/documents, x vlevel 0-3 x version {None,gfa1,gfa2} x dialect, through Line(), Gfa(str|list), from_file, add_line; then follow-up public calls (line/segment/try_get_*/rm/validate/str, get/set/validate_field/field_to_s/delete/set_datatype) with hostile names and values; bin/gfapy-validate on generated files; every call runs under a logical step budget (5e6 + 5000*bytes function entries + loop back-edges inside gfapy/); non-trivial = case that reached a raise site not seen before in its shard Plus API-call histories (additions, removals, renames, tag and field edits incl. fragment external, probes) run through the client classifier; every field name of every record type is offered to set(); line instances are removed.",
      budget={"quick": 35, "thorough": 500},
-     min_counts={"quick": {"public_calls": 30000, "gfapy_errors": 5000, "cli_runs": 20}},
+     min_counts={"quick": {"histories": 200, "public_calls": 30000, "gfapy_errors": 5000, "cli_runs": 20}},
      assumptions=["files are written as UTF-8 text; undecodable bytes and missing files are environment faults outside the claim",
                   "termination is restated as bounded progress: no call may exceed the deterministic step budget; a wall-clock watchdog firing is inconclusive"])
 
@@ -84,13 +84,13 @@ meta("C03",
 meta("C13",
      rule="documents assembled from pools of GFA1-only, GFA2-only and version-neutral lines (pure, neutral, mixed; every line distinct so that multiplicity is observable) x explicit version {None,gfa1,gfa2} x dialect {standard,rgfa} x entry point {Gfa(list), Gfa(str), from_file} x vlevel; ALL permutations for documents of <=6 (quick) / <=7 (thorough) lines; expected version / VersionError from the independent line classifier; each input line must appear exactly once; non-trivial = document with a version-ambiguous line arriving before the deciding line 20% line-by-line scenarios: refused lines which hint at a version among neutral lines, then content of either version: the version follows from the accepted lines alone.",
      budget={"quick": 25, "thorough": 400},
-     min_counts={"quick": {"orders": 20000, "documents_all_orders": 200}},
+     min_counts={"quick": {"incremental_calls": 250, "incremental_refusals": 60, "orders": 20000, "documents_all_orders": 200}},
      set_samples=["kinds"])
 
 meta("C10",
      rule="states built from generated GFA1/GFA2 documents (asymmetric CIGARs, paths, groups; vlevel 0-3, canonical and free spelling, so that lazily decoded fields exist) x random sequences of 10-40 calls drawn from the catalogue of read-only public queries (vlib/mon/catalogue.py: Gfa-, line-, segment-, edge-, link-, group- and alignment-level); every call is executed twice under the purity guard: full observation of the Gfa plus written form / repr of receiver and argument objects before, between and after, and both answers must agree; non-trivial = sequence touching a CIGAR with I/D or a lazily decoded / freely spelled field Canaries: fixed questions on two fixed graphs are answered before the first case and again after every case (process-level state left by a query changes a recorded answer); select by real field names.",
      budget={"quick": 30, "thorough": 450},
-     min_counts={"quick": {"guarded_calls": 10000, "queries_exercised": 155}},
+     min_counts={"quick": {"canary_answers": 40000, "guarded_calls": 10000, "queries_exercised": 155}},
      set_samples=["queries_exercised"])
 
 meta("C12",
@@ -109,29 +109,29 @@ meta("C19",
 meta("C20",
      rule="Python values of every supported kind (int, finite float, str, char, JSON list/dict, integer/float array, byte array) on and next to subtype/grammar boundaries, and values the datatype cannot represent (tab/newline/non-printable strings, non-finite floats, mixed/out-of-range/empty arrays, bytes > 255, JSON with non-printables), assigned by set() / attribute / after set_datatype on S, L, E, H lines at vlevel 0-3; checked: default datatype, validate_field, written tag vs the datatype grammar, smallest array subtype, read back through gfapy.Line(str(line)) equal with the same datatype; unrepresentable values must fail validation and not be written unflagged at level >= 2; distinct = (kind, value, way, level, carrier) 12% any-class cells (a Python value of any class offered to each declared datatype: never a foreign exception, never malformed text after passing validation); 25% of the good cases assign on a line whose clone got a value of another class under the same tag first; float arrays draw |x| >= 1e16.",
      budget={"quick": 20, "thorough": 300},
-     min_counts={"quick": {"assignments": 30000, "read_backs": 10000, "bad_values_validated": 2000, "kinds": 14}},
+     min_counts={"quick": {"anyclass_assignments": 10000, "sibling_assignments": 10000, "assignments": 30000, "read_backs": 10000, "bad_values_validated": 2000, "kinds": 14}},
      set_samples=["kinds"])
 
 meta("C11",
      rule="(1) exhaustive table: 4 orientation pairs x 7 x 7 interval kinds (empty prefix, prefix, whole, inner, empty inner, suffix, empty suffix) x both sid orders = 392 E lines, each as its own graph and all together; L/C/G lines and self-edges x 4 orientation pairs x {A->B, A->A, B->A} incl. parallel links; (2) random GFA1/GFA2 graphs with several edges per end, re-checked after 1-4 random removals/renames mirrored on the text model; every traversal collection, derived answer (neighbours, containers, contained), edge predicate, from/to/other end and Gfa-level dovetails/containments is compared with the independent model of vlib/spec/edges.py; distinct = table cells (by construction) + distinct random graphs 30% of the random cases are shared mutation histories (forward references, renames onto placeholders, cascades, re-additions) with the collections judged after every step.",
      budget={"quick": 20, "thorough": 240},
-     min_counts={"quick": {"table_cells": 392, "lcg_cells": 30, "collections_compared": 20000, "edge_predicates_compared": 2000, "checks_after_mutation": 2000}},
+     min_counts={"quick": {"checks_after_mutation": 4000, "table_cells": 392, "lcg_cells": 30, "collections_compared": 20000, "edge_predicates_compared": 2000, "checks_after_mutation": 2000}},
      exhaustive="table (1): 392 E-line cells + L/C/G/self-edge cells")
 meta("C16",
      rule="GFA1/GFA2 graphs with isolated segments, trees, cycles, self-links, hairpins, parallel edges, containment-only and internal-only relations (plus generic generated documents); connected_components, segment_connected_component (by name and by instance) and the four counters are compared with an independent union-find / text count; then again after 0-4 random removals mirrored on the text model; remove_small_components vs component lengths; non-trivial = >=2 components and a cycle/self-link/hairpin/parallel/containment/internal feature 25% of the cases are shared mutation histories with components and counts judged after every step.",
      budget={"quick": 20, "thorough": 240},
-     min_counts={"quick": {"component_computations": 10000, "counters_compared": 40000, "checks_after_mutation": 2000, "remove_small_components": 500}},
+     min_counts={"quick": {"checks_after_history_step": 4000, "component_computations": 10000, "counters_compared": 40000, "checks_after_mutation": 2000, "remove_small_components": 500}},
      set_samples=["shapes"])
 
 meta("C18",
      rule="(a) generated valid documents built at levels 0,1,2,3: written text (textually for canonical spelling, canonically for free spelling) and full observation must agree; (b) hostile documents and mutants built at all four levels: acceptance must be monotone (accepted at k => accepted at every lower level); (c) assignment scripts: 24 positional fields/tags x valid and invalid values x levels 0-3 x set()/attribute, followed by validate_field, validate, field_to_s, get, str: invalid reported at the assignment at level 3, at the latest on write at level 2, by explicit validation at every level; valid never rejected; non-trivial = document with delayed-parsing datatypes, acceptance differing between levels, or any assignment; distinct by (document | field, value, level, way) Sequences on a new tag: value(s) unrepresentable in their own default datatype (refused at level 3), then a representable value of another class, which must be accepted with its documented default datatype.",
      budget={"quick": 25, "thorough": 360},
-     min_counts={"quick": {"level_builds": 4000, "monotonicity_builds": 4000, "assignments": 4000, "invalid_validated": 1200, "assign_cells": 150}})
+     min_counts={"quick": {"seq_valid_after_refused": 60, "level_builds": 4000, "monotonicity_builds": 4000, "assignments": 4000, "invalid_validated": 1200, "assign_cells": 150}})
 
 meta("C14",
      rule="GFA1 (70%) and GFA2 graphs of 2-8 segments with M/=-only or '*' overlaps: backbone chains of 2-5 segments in every mix of orientations, rings, plus branches, self-links, hairpins on chain ends and inside, chains sharing junctions, with and without sequences; linear_paths() is compared with the independent chain finder (modulo reversal / ring rotation); after merge_linear_paths(): spelled sequence (orientation taken from the path gfapy reported), length, exact multiset of outward dovetails re-attached to the right ends, untouched segments, component partition, closed/symmetric object graph, idempotence; non-trivial = a chain of >=3 segments with mixed exit ends 30% of the merges use enable_tracking=True (the '^' marks in merged names are stripped before comparison).",
      budget={"quick": 20, "thorough": 300},
-     min_counts={"quick": {"linear_paths_calls": 8000, "merges": 5000, "invariant_evaluations": 3000}},
+     min_counts={"quick": {"merges_with_enable_tracking": 1000, "linear_paths_calls": 8000, "merges": 5000, "invariant_evaluations": 3000}},
      set_samples=["features", "chain_lengths"])
 
 meta("C15",
@@ -143,7 +143,7 @@ meta("C15",
 meta("C17",
      rule="GFA2 graphs of 2-6 segments and named edges; (a) ordered groups generated as presentations of a known alternating walk: full, segments only (edges implied where exactly one fits), edges only (segments implied), mixed omissions, nested sub-paths referenced + or - ; captured_path/segments/edges must equal the walk; (b) deliberately broken lists (foreign segment, ambiguous parallel edges, non-adjacent segments) must raise; (c) unordered groups over segments, edges, paths and nested sets: induced segments/edges/set vs an independent closure; (d) multi-line U/O definitions in ALL arrival orders of the group lines (<=4 lines): items concatenated in arrival order, tags united; documents are shuffled; non-trivial = nested or abbreviated or reversed presentation, broken list, set, multi-line group 40% of the graphs are built line by line with every group queried after each arrival (answers on the incomplete graph are not judged); twin unnamed identical edges as the only fitting edges must give the ambiguity error; group lines given as Line objects must be disconnected once merged.",
      budget={"quick": 20, "thorough": 300},
-     min_counts={"quick": {"captured_paths": 5000, "rejected_lists": 1000, "induced_sets": 3000, "multiline_orders": 3000, "item_kinds": 4}},
+     min_counts={"quick": {"early_queries": 20000, "stale_objects_checked": 5000, "captured_paths": 5000, "rejected_lists": 1000, "induced_sets": 3000, "multiline_orders": 3000, "item_kinds": 4}},
      set_samples=["kinds", "item_kinds"])
 
 meta("C06",
